@@ -155,8 +155,10 @@ package receiver
 
 //@ func (*receiver.Transfer).deleteFiles
 //@   requires [sorted] sortedByName(fileList)
-//@   modifies ghost.removed, rsyncos.Env.logger, rsyncwire.CountingWriter.BytesWritten
+//@   modifies ghost.removed, ghost.walks, rsyncos.Env.logger, rsyncwire.CountingWriter.BytesWritten
 //@   ensures[C09] [io-errors-delete-nothing] rt.IOErrors > 0 ==> ghost.removed == old(ghost.removed)
+//@   ensures[C09] [top-dir-is-walked] err == nil && rt.IOErrors <= 0 && inList(fileList, ".") ==> ghost.walks > old(ghost.walks)
+//@   loop[C09] 0: invariant [walked-for-earlier-top-dirs] -1 <= rangeindex && ghost.walks >= old(ghost.walks) && (forall k :: 0 <= k && k <= rangeindex && fileList[k].Name == "." ==> ghost.walks > old(ghost.walks))
 
 //@ func (*receiver.Transfer).ReceiveFileList
 //@   modifies *
